@@ -129,6 +129,8 @@ def make_foreign(table, d, full_max=1024):
     for p in table:
         b = Path(p["path"]).read_bytes()
         for codec, maker, f in makers():
+            if maker == "lzma-xz-9e-crc32" and p["len"] > 20000 and p["cls"] != "run":
+                continue                      # preset 9e costs seconds per call; one large payload is enough
             s = f(b)
             sp = d / f"{p['name']}.{maker}"
             sp.write_bytes(s)
